@@ -603,10 +603,11 @@ const (
 	LandOscillate
 	LandTiny
 	LandTiesPositive
+	LandNearlyEqual
 	numLands
 )
 
-var landNames = []string{"const", "zero", "uniform", "heavy", "dominant", "ties", "structural", "distinct", "huge", "oscillate", "tiny", "ties-positive"}
+var landNames = []string{"const", "zero", "uniform", "heavy", "dominant", "ties", "structural", "distinct", "huge", "oscillate", "tiny", "ties-positive", "nearly-equal"}
 
 // Landscape assigns finite, non-negative fitness deterministically from (seed, generation, index, genome shape).
 type Landscape struct {
@@ -665,6 +666,9 @@ func (l *Landscape) Fitness(gen, idx int, g *genetics.Genome) float64 {
 	case LandTiny:
 		// positive but at the bottom of the float64 range (subnormal and just above): ratios are ordinary, reciprocals overflow
 		return (1 + r.Float()*9) * 1e-309
+	case LandNearlyEqual:
+		// distinct values that differ from the twelfth digit on: a comparison with a tolerance takes them for equal
+		return 7.5 * (1 + float64(1+(idx*7+gen*3)%97)*1e-12 + float64(idx)*1e-14)
 	case LandTiesPositive:
 		// few distinct positive values: exact ties everywhere, also across the parent cut of a species
 		return float64(1 + r.Intn(3))
@@ -680,4 +684,4 @@ func (w *World) AssignFitness() {
 }
 
 // PositiveLands are the landscapes with at least one positive value guaranteed.
-var PositiveLands = []int{LandConst, LandUniform, LandHeavy, LandDominant, LandStructural, LandDistinct, LandHuge, LandOscillate, LandTiny, LandTiesPositive}
+var PositiveLands = []int{LandConst, LandUniform, LandHeavy, LandDominant, LandStructural, LandDistinct, LandHuge, LandOscillate, LandTiny, LandTiesPositive, LandNearlyEqual}
